@@ -29,6 +29,8 @@ TEXT_EXT = [".yml", ".yaml", ".options", ".properties", ".json", ".txt", ".ini"]
 TEXT_FILES = [
     "config/elasticsearch.yml", "config/elasticsearch.yml", "config/jvm.options", "config/log4j2.properties", "config/jvm.options.d/rally.options",
     "config/roles.yml", "top.txt", "config/a/b/deep.json", "config/x/y/z/settings.yaml", "config/users.ini", "extras/notes.txt",
+    # the same file name in several directories of one config base (e.g. the log4j2.properties of x-pack in Elasticsearch 6)
+    "config/x-pack/log4j2.properties", "config/a/b/elasticsearch.yml", "notes.txt", "config/a/notes.txt",
 ]
 BIN_FILES = [
     "config/certs/node.p12", "config/keystore.jks", "lib/extra.jar", "bin/run.sh", "plugins/readme", "config/a/b/logo.png",
@@ -153,6 +155,13 @@ def gen_case(rng, tier="quick"):
                     templates[rng.choice(hot_text if rng.random() < 0.5 else TEXT_FILES)] = {"t": gen_text(rng, hot)}
                 else:
                     templates[rng.choice(hot_bin if rng.random() < 0.4 else BIN_FILES)] = {"b": gen_bin(rng).hex()}
+            if rng.random() < 0.2:
+                # two templates with one file name in different directories of this base, each with its own content
+                a, b2 = rng.choice([("config/log4j2.properties", "config/x-pack/log4j2.properties"), ("config/elasticsearch.yml", "config/a/b/elasticsearch.yml"),
+                                    ("notes.txt", "config/a/notes.txt"), ("extras/notes.txt", "config/a/notes.txt")])
+                templates[a] = {"t": gen_text(rng, hot)}
+                templates[b2] = {"t": gen_text(rng, hot)}
+                feats.add("same-file-name-in-two-dirs-of-a-base")
         else:
             templates = None
         emptydirs = ["config/empty.d"] if rng.random() < 0.1 and templates is not None else []
